@@ -24,7 +24,7 @@ def cmd_check(pid, args):
     mod = core.load_prop(pid)
     nruns = args.runs or mod.NRUNS[tier]
     budget = float(os.environ.get("VERIF_BUDGET_S", "0")) or {"quick": 600.0, "thorough": 7200.0}[tier]
-    timeout = getattr(mod, "RUN_TIMEOUT", 60.0)
+    timeout = getattr(mod, "RUN_TIMEOUT", 120.0)
     t0 = time.time()
     print("mofsim %s tier=%s VERIF_SEED=%d runs=%d workers=%d" % (pid, tier, verif_seed, nruns, workers), flush=True)
     results, stopped_early, wall = core.run_batch(pid, tier, verif_seed, nruns, workers, budget, timeout=timeout)
